@@ -409,6 +409,35 @@ func bigText(r *gen.Rng, target int) string {
 	return b.String()
 }
 
+// paddedText is a small valid document blown up to target+delta bytes by padding that is
+// cheap to decode: a long string member, leading or trailing white space.
+func paddedText(r *gen.Rng, target int) string {
+	n := target + []int{-1, 0, 1, 2, 4096, target / 16, 65536}[r.Intn(7)]
+	core := `"nums":[3,1,2],"strs":["b","a"],"objs":[{"k":2,"s":"b"},{"k":1,"s":"a"}],"s":"héllo","n":-3.5}`
+	switch r.Intn(3) {
+	case 0:
+		head := `{"pad":"`
+		pad := n - len(head) - len(core) - 2
+		if pad < 0 {
+			pad = 0
+		}
+		return head + strings.Repeat("x", pad) + `",` + core
+	case 1:
+		pad := n - len(core) - 1
+		if pad < 0 {
+			pad = 0
+		}
+		return strings.Repeat(" ", pad) + "{" + core
+	default:
+		pad := n - len(core) - 1
+		if pad < 0 {
+			pad = 0
+		}
+		e := r.Pick([]string{" ", "\n", " \t"})
+		return "{" + core + strings.Repeat(e, pad/len(e)+1)
+	}
+}
+
 func invalidText(r *gen.Rng, valid string) string {
 	switch r.Intn(11) {
 	case 0:
@@ -466,6 +495,11 @@ func genIOWorkload(r *gen.Rng) (expr, text string) {
 		valid = bigText(r, []int{65000, 66000, 131000, 200000}[r.Intn(4)])
 	}
 	text = indentJSON(r, valid)
+	if r.Chance(1, 110) {
+		// inputs just below / at / above sizes at which a program may switch strategy
+		// (read everything vs. stream, stack buffer vs. heap, one block vs. several)
+		text = paddedText(r, []int{1 << 16, 1 << 18, 1000000, 1 << 20, 2 << 20, 4 << 20}[r.Intn(6)])
+	}
 	if r.Chance(22, 100) {
 		text = invalidText(r, text)
 	}
